@@ -48,14 +48,17 @@ class Deadlock(Exception):
     pass
 
 
-def explore(run_schedule, max_preempt, limit=None, max_inner=None):
+def explore(run_schedule, max_preempt, limit=None, max_inner=None, novel=None):
     """Stateless preemption-bounded exploration.  run_schedule(decisions) runs one execution
     that follows the default policy (keep running the current actor while it is enabled; at a
     forced switch take the lowest enabled actor) except at the step indices in `decisions`
-    ({step: actor}); it returns the trace [(current, enabled tuple, chosen, inner?)] of its
-    choice points (inner? = the point lies inside the bulk of the work, e.g. _generate_ast,
-    rather than in the protocol around it).  Explores every schedule with at most max_preempt
-    preemptions of which at most max_inner at inner points.  Yields (decisions, payload)."""
+    ({step: actor}); it returns the trace [(current, enabled tuple, chosen, inner?, point)] of
+    its choice points (inner? = the point lies inside the bulk of the work, e.g. _generate_ast;
+    point = (file, line) at which the current actor is paused).  Explores every schedule with at
+    most max_preempt preemptions of which at most max_inner at inner points.  With
+    novel = (counter dict, k) a preemption at a point that has already been used k times in this
+    run is skipped (prioritises lines by novelty; the thorough tier passes None).
+    Yields (decisions, payload)."""
     stack = [({}, 0, 0, 0)]       # decisions, first step index that may deviate, preemptions, inner ones
     seen = 0
     while stack:
@@ -68,6 +71,7 @@ def explore(run_schedule, max_preempt, limit=None, max_inner=None):
         for s in range(first, len(trace)):
             cur, enabled, chosen = trace[s][:3]
             is_inner = bool(trace[s][3]) if len(trace[s]) > 3 else False
+            point = trace[s][4] if len(trace[s]) > 4 else None
             for t in enabled:
                 if t == chosen:
                     continue
@@ -75,6 +79,10 @@ def explore(run_schedule, max_preempt, limit=None, max_inner=None):
                 icost = cost if is_inner else 0
                 if used + cost > max_preempt or (max_inner is not None and inner + icost > max_inner):
                     continue
+                if cost and novel is not None and point is not None:
+                    if novel[0].get(point, 0) >= novel[1]:
+                        continue
+                    novel[0][point] = novel[0].get(point, 0) + 1
                 d = dict(decisions)
                 d[s] = t
                 stack.append((d, s + 1, used + cost, inner + icost))
@@ -128,7 +136,7 @@ class ThreadSched:
         self.lines = lines
         self.inner = inner
         self.more = more or {}
-        self._more_tracers = {fn: self._make_tracer(ls) for fn, ls in self.more.items()}
+        self._more_tracers = {fn: self._make_tracer(ls, fn) for fn, ls in self.more.items()}
         self.lock_of = lock_of                # () -> CoopLock
         self.local = threading.local()
 
@@ -149,10 +157,10 @@ class ThreadSched:
             self.yield_baton(self.local.tid, line=frame.f_lineno)
         return self._local_trace
 
-    def _make_tracer(self, lines):
+    def _make_tracer(self, lines, fn=None):
         def tr(frame, event, arg):
             if event == 'line' and frame.f_lineno in lines:
-                self.yield_baton(self.local.tid, line=-frame.f_lineno)
+                self.yield_baton(self.local.tid, line=(fn, frame.f_lineno))
             return tr
         return tr
 
@@ -169,7 +177,8 @@ class ThreadSched:
             return None
         c = cur if cur is not None and not self.done[cur] else None
         nxt = choose(self.decisions, len(self.trace), c, enabled)
-        self.trace.append((c, enabled, nxt, c is not None and self.at[c] in self.inner))
+        self.trace.append((c, enabled, nxt, c is not None and self.at[c] in self.inner,
+                           self.at[c] if c is not None else None))
         return nxt
 
     def yield_baton(self, tid, blocked=False, line=None):
@@ -783,7 +792,7 @@ def build_marking_app(falcon, asgi):
                 media['w_' + m] = m
                 await Suspend()
                 again = await req.get_media()
-                resp.media = report(req, resp, kw, True, {'media': sorted(again)})
+                resp.media = report(req, resp, kw, True, {'media': sorted((k, str(v)) for k, v in again.items())})
 
         class Fail:
             async def on_get(self, req, resp, kind, **kw):
@@ -827,7 +836,7 @@ def build_marking_app(falcon, asgi):
                 media = req.get_media()
                 media['w_' + m] = m
                 again = req.get_media()
-                resp.media = report(req, resp, kw, False, {'media': sorted(again)})
+                resp.media = report(req, resp, kw, False, {'media': sorted((k, str(v)) for k, v in again.items())})
 
         class Fail:
             def on_get(self, req, resp, kind, **kw):
@@ -876,6 +885,33 @@ MARK_REQUESTS = [
 ]
 
 
+def pct(text):
+    return ''.join('%%%02X' % ord(c) for c in text)
+
+
+SHARED_REQUESTS = [
+    # long percent-encoded query / form values (uri.decode's bytearray path: >= 8 escapes)
+    {'method': 'GET', 'path': '/static', 'qs': 'q=' + pct('abcdefghijkl') + '&z=' + pct('one two')},
+    {'method': 'GET', 'path': '/items/3', 'qs': 'q=' + pct('ZYXWVUTSRQPONM') + '&z=' + pct('3+4=7')},
+    {'method': 'POST', 'path': '/static', 'ctype': 'application/x-www-form-urlencoded',
+     'body': 'f=' + pct('form value number one') + '&g=' + pct('uno')},
+    {'method': 'POST', 'path': '/items/4', 'ctype': 'application/x-www-form-urlencoded',
+     'body': 'f=' + pct('FORM VALUE NUMBER TWO!') + '&g=' + pct('dos')},
+    # parametrised content types (media handler resolution and its cache)
+    {'method': 'POST', 'path': '/static', 'ctype': 'application/json; v=901', 'body': '{"k": 901}'},
+    {'method': 'POST', 'path': '/items/5', 'ctype': 'application/json; v=902', 'body': '{"k": 902}'},
+    # error rendering / content negotiation
+    {'method': 'GET', 'path': '/err/http', 'qs': 'q=' + pct('negotiate')},
+    {'method': 'GET', 'path': '/nope/' + 'x', 'qs': 'q=' + pct('not found!')},
+]
+
+
+def many_ctypes():
+    """65 requests with distinct parametrised content types: fills every bounded cache keyed by it"""
+    return [{'method': 'POST', 'path': '/static', 'ctype': 'application/json; v=%d' % i, 'body': '{"k": %d}' % i}
+            for i in range(65)]
+
+
 def with_marks(reqs):
     out = []
     for r in reqs:
@@ -894,7 +930,7 @@ def normalize(text, marks):
 def wsgi_call(testing, app, rq):
     hdrs = {'X-Rid': rq['rid'], 'Cookie': 'sess=%s' % rq['rid']}
     if rq.get('body') is not None:
-        hdrs['Content-Type'] = 'application/json'
+        hdrs['Content-Type'] = rq.get('ctype') or 'application/json'
     r = testing.simulate_request(app, method=rq['method'], path=rq['path'], query_string=rq.get('qs', ''),
                                  headers=hdrs, body=rq.get('body'))
     return json.dumps([r.status_code, sorted((k.lower(), v) for k, v in r.headers.items()), r.text])
@@ -993,7 +1029,8 @@ def consecutive_check(ctx, asgi, reqs, tag):
     ctx.note_case((tag, 'consecutive', asgi, json.dumps([(r['method'], r['path'], r.get('qs')) for r in reqs])), True)
 
 
-def mark_thread_sweep(ctx, reqs, max_preempt, limit, tag, deadline=None, warm=None, decisions_only=None):
+def mark_thread_sweep(ctx, reqs, max_preempt, limit, tag, deadline=None, warm=None, decisions_only=None,
+                      lines=None, novel=None, warm_fn=None):
     """2-3 WSGI requests on one marking app in managed threads; preemption at every executed line
     of app.py / compiled.py that mentions `self._`"""
     import falcon
@@ -1009,8 +1046,12 @@ def mark_thread_sweep(ctx, reqs, max_preempt, limit, tag, deadline=None, warm=No
         app = build_marking_app(falcon, False)
         for w in with_marks(warm):                      # earlier traffic: compiles the router, fills caches
             wsgi_call(testing, app, w)
-        sched = ThreadSched(compiled.__file__, mark_thread_sweep.lines[compiled.__file__],
-                            lambda: state.get('lock'), more={k: v for k, v in mark_thread_sweep.lines.items()
+        if warm_fn is not None:
+            for w in with_marks(warm_fn()):
+                wsgi_call(testing, app, w)
+        ld = lines if lines is not None else mark_thread_sweep.lines
+        sched = ThreadSched(compiled.__file__, ld.get(compiled.__file__, set()),
+                            lambda: state.get('lock'), more={k: v for k, v in ld.items()
                                                              if k != compiled.__file__})
         lock = CoopLock(sched)
         state['lock'] = lock
@@ -1030,14 +1071,15 @@ def mark_thread_sweep(ctx, reqs, max_preempt, limit, tag, deadline=None, warm=No
 
     n = 0
     it = [(decisions_only, run_schedule(decisions_only)[1])] if decisions_only is not None else \
-        explore(run_schedule, max_preempt, limit)
+        explore(run_schedule, max_preempt, limit, novel=novel)
     for decisions, (res, dead, post) in it:
         n += 1
         if deadline is not None and time.time() > deadline:
             ctx.count('sweeps-cut-by-deadline')
             break
         detail = {'mode': 'marks-threads', 'requests': [dict(r, rid=None) for r in reqs], 'warm': warm,
-                  'decisions': {str(k): v for k, v in decisions.items()}, 'tag': tag}
+                  'decisions': {str(k): v for k, v in decisions.items()}, 'tag': tag,
+                  'lines': 'shared-state' if lines is not None else 'self._', 'warm_ctypes': warm_fn is not None}
         if dead:
             ctx.violation('deadlock', detail, key='deadlock')
             continue
@@ -1111,6 +1153,94 @@ def mark_asgi_sweep(ctx, reqs, max_preempt, limit, tag, deadline=None, warm=None
         ctx.count('mark-asgi-schedules')
     ctx.note_case((tag, 'mark-asgi', json.dumps([(r['method'], r['path'], r.get('qs')) for r in reqs])), True)
     return n
+
+
+MUTABLE_CALLS = {'bytearray', 'list', 'dict', 'set', 'defaultdict', 'OrderedDict', 'deque', 'Counter',
+                 'WeakKeyDictionary', 'WeakValueDictionary', 'Lock', 'RLock', 'local'}
+LONG_LIVED_CLASS = re.compile(r'(App|Router|Options|Handler|Handlers|Middleware|Route|Converter|Dict|Inspector|'
+                              r'Client|Cache|Registry)$')
+
+
+def _is_mutable(node):
+    import ast
+    if isinstance(node, (ast.List, ast.Dict, ast.Set, ast.ListComp, ast.DictComp, ast.SetComp)):
+        return True
+    if isinstance(node, ast.Call):
+        f = node.func
+        name = f.id if isinstance(f, ast.Name) else f.attr if isinstance(f, ast.Attribute) else None
+        return name in MUTABLE_CALLS
+    return False
+
+
+def shared_state_lines(root):
+    """Syntactic over-approximation, from the staged source, of the code that reads or writes
+    state outliving a call: for every module of falcon/ the lines of every function that
+      - mentions a module-level name bound to a mutable object,
+      - has a mutable default argument (the `kwarg cache` idiom),
+      - is a method of a long-lived class (App, Router, Handlers, Options, Middleware ...) touching self.<attr>,
+      - is a closure over the locals of an enclosing function (e.g. the media resolver and its cache),
+      - is wrapped by a cache decorator.
+    Returns ({filename: set(lines)}, {reason: number of functions})."""
+    import ast
+    out, why = {}, {}
+    for dp, dn, fns in os.walk(root):
+        dn[:] = [d for d in dn if d not in ('__pycache__', 'bench', 'cmd', 'testing', 'cyutil')]
+        for f in fns:
+            if not f.endswith('.py'):
+                continue
+            path = os.path.join(dp, f)
+            try:
+                with open(path, encoding='utf-8') as fh:
+                    tree = ast.parse(fh.read())
+            except SyntaxError:
+                continue
+            modmut = set()
+            for st in tree.body:
+                if isinstance(st, ast.Assign) and _is_mutable(st.value):
+                    modmut.update(t.id for t in st.targets if isinstance(t, ast.Name))
+                elif isinstance(st, ast.AnnAssign) and st.value is not None and _is_mutable(st.value) \
+                        and isinstance(st.target, ast.Name):
+                    modmut.add(st.target.id)
+            lines = set()
+
+            def locals_of(fn):
+                names = {a.arg for a in fn.args.args + fn.args.kwonlyargs}
+                for n in ast.walk(fn):
+                    if isinstance(n, ast.Name) and isinstance(n.ctx, ast.Store):
+                        names.add(n.id)
+                return names
+
+            def visit(node, cls, outer):
+                for ch in ast.iter_child_nodes(node):
+                    if isinstance(ch, ast.ClassDef):
+                        visit(ch, ch.name, outer)
+                    elif isinstance(ch, (ast.FunctionDef, ast.AsyncFunctionDef)):
+                        reasons = []
+                        if any(_is_mutable(d) for d in ch.args.defaults + [k for k in ch.args.kw_defaults if k]):
+                            reasons.append('mutable-default')
+                        names = {n.id for n in ast.walk(ch) if isinstance(n, ast.Name)}
+                        if names & modmut:
+                            reasons.append('module-mutable')
+                        if cls and LONG_LIVED_CLASS.search(cls) and ch.args.args and ch.args.args[0].arg == 'self' \
+                                and any(isinstance(n, ast.Attribute) and isinstance(n.value, ast.Name)
+                                        and n.value.id == 'self' for n in ast.walk(ch)):
+                            reasons.append('long-lived-self')
+                        if outer is not None and (names - {a.arg for a in ch.args.args}) & outer:
+                            reasons.append('closure')
+                        if any('cache' in ast.dump(d).lower() for d in ch.decorator_list):
+                            reasons.append('cache-decorator')
+                        if reasons:
+                            lines.update(range(ch.lineno, (ch.end_lineno or ch.lineno) + 1))
+                            for r in reasons:
+                                why[r] = why.get(r, 0) + 1
+                        visit(ch, None, locals_of(ch))
+                    else:
+                        visit(ch, cls, outer)
+
+            visit(tree, None, None)
+            if lines:
+                out[path] = lines
+    return out, why
 
 
 def setup_app_lines():
@@ -1217,6 +1347,20 @@ def main(ctx):
         mark_thread_sweep(ctx, [R[8], R[9], R[10]], 2, 4000, 'mthr3', deadline=T(0, 200), warm=[R[0]])
         for _ in range(6):
             mark_thread_sweep(ctx, rng.sample(R, 2), 1, None, 'mthr2r', deadline=T(0, 60), warm=rng.sample(R, 1))
+    # threads preempted anywhere state outlives a call, in ANY falcon module (syntactic line set)
+    import falcon as _f
+    shared, why = shared_state_lines(os.path.dirname(_f.__file__))
+    ctx.cov['shared_state_lines'] = {'files': len(shared), 'lines': sum(len(v) for v in shared.values()),
+                                     'functions_by_reason': why}
+    S = SHARED_REQUESTS
+    novel = ({}, 1) if quick else None          # quick: every line is used as a preemption point once
+    dl = T(28, 700)
+    spairs = [([S[0], S[1]], [R[0]], None), ([S[2], S[3]], [R[0]], None), ([S[4], S[5]], [R[0]], many_ctypes),
+              ([S[6], S[7]], [R[0]], None), ([S[0], S[3]], [], None), ([R[8], R[9]], [R[0]], None),
+              ([R[5], S[4]], [R[5]], None)]
+    for reqs, warm, wf in spairs:
+        mark_thread_sweep(ctx, reqs, 1, None if quick else 6000, 'mshared', deadline=dl, warm=warm, lines=shared,
+                          novel=novel, warm_fn=wf)
     dl = T(20, 400)
     apairs = [([R[0], R[0]], [R[0]]), ([R[0], R[2]], []), ([R[4], R[3]], []), ([R[8], R[9]], []), ([R[5], R[6]], []),
               ([R[11], R[10]], [R[2]]), ([R[7], R[0]], [R[7]])]
@@ -1251,7 +1395,10 @@ def replay(ctx, obj):
         asgi_sweep(ctx, obj['spec'], obj['requests'], 0, None, 'replay', decisions_only=dec)
     elif mode == 'marks-threads':
         setup_app_lines()
-        mark_thread_sweep(ctx, obj['requests'], 0, None, 'replay', warm=obj.get('warm'), decisions_only=dec)
+        import falcon as _f
+        ls = shared_state_lines(os.path.dirname(_f.__file__))[0] if obj.get('lines') == 'shared-state' else None
+        mark_thread_sweep(ctx, obj['requests'], 0, None, 'replay', warm=obj.get('warm'), decisions_only=dec, lines=ls,
+                          warm_fn=many_ctypes if obj.get('warm_ctypes') else None)
     elif mode == 'marks-asgi':
         mark_asgi_sweep(ctx, obj['requests'], 0, None, 'replay', warm=obj.get('warm'), decisions_only=dec)
     elif mode == 'marks-consecutive':
